@@ -273,19 +273,37 @@ func ruleAcyclicProvide(rule string) RuleFn {
 				}
 				okAll := true
 				for _, e := range fail {
-					tgt := e.From.Succs[e.Succ]
-					rets := returnsFrom(f, tgt.Instrs[0])
+					e := e
+					// path-sensitive: which values can a return deliver on paths that start with the failure edge
+					type rv struct {
+						r *ssa.Return
+						v ssa.Value
+					}
+					var rets []rv
+					seenRV := map[string]bool{}
+					an.PathSens(an.PSQuery{Fn: f, StartEdge: &e, Target: func(i ssa.Instruction, env *an.PEnv) bool {
+						if r, ok := i.(*ssa.Return); ok && i.Block().Comment != "recover" && len(r.Results) > 0 {
+							v := an.Resolve(env.Val(r.Results[len(r.Results)-1]))
+							key := fmt.Sprintf("%p|%s", r, an.Norm(v))
+							if !seenRV[key] {
+								seenRV[key] = true
+								rets = append(rets, rv{r, v})
+							}
+						}
+						return false
+					}})
 					if len(rets) == 0 {
 						okAll = false
 						c.Bad(rule, cons, "the failure edge does not lead to a return", k, nil)
 						continue
 					}
-					for _, r := range rets {
-						s := an.Norm(an.Resolve(r.Results[len(r.Results)-1]))
+					for _, x := range rets {
+						s := an.Norm(x.v)
 						want := ".cycleDetectedError(" + an.Norm(k) + "#1)"
-						if !isErrorExit(r) || !strings.Contains(s, want) {
+						kc, isNil := x.v.(*ssa.Const)
+						if (isNil && kc.IsNil()) || !strings.Contains(s, want) {
 							okAll = false
-							c.Bad(rule, cons, "after a detected cycle the function can return "+s+": the cycle is not rejected or the error is not recognisable by IsCycleDetected", r, nil)
+							c.Bad(rule, cons, "after a detected cycle the function can return "+s+": the cycle is not rejected or the error is not recognisable by IsCycleDetected", x.r, nil)
 						}
 					}
 				}
@@ -328,7 +346,7 @@ func ruleCycleErr(rule string) RuleFn {
 		n := 0
 		for _, fn := range c.P.Funcs {
 			an.Instrs(fn, func(in ssa.Instruction) {
-				if al, ok := in.(*ssa.Alloc); ok && al.Comment == "complit" && an.IsDigNamed(al.Type(), "errCycleDetected") {
+				if al, ok := in.(*ssa.Alloc); ok && isConstruction(al) && an.IsDigNamed(al.Type(), "errCycleDetected") {
 					// IsCycleDetected builds an empty one as the errors.As target
 					nm := an.ShortName(fn)
 					if nm == "dig.IsCycleDetected" {
